@@ -27,11 +27,12 @@ def gen_sign_case(r):
     c = GT.Case()
     t, files, written = GT.build_consistent(r, c, allow_multi=r.random() < 0.2, dups=False)
     muts = []
-    if r.random() < 0.6:
+    single = r.random() < 0.12          # nothing changes at all: one listed path is refreshed and the save is not forced (see below)
+    if r.random() < 0.6 and not single:
         muts.append(GT.mutate(r, c, files, written, r.choice(['content-same-size', 'content-other-size', 'delete', 'stray'])))
     c.meta['mutations'] = muts
     c.meta['order_seed'] = r.randint(0, 3)
-    orig = r.choice(['unsigned', 'signed', 'signed', 'bad-signature'])
+    orig = r.choice(['unsigned', 'signed', 'signed', 'bad-signature']) if not single else r.choice(['unsigned', 'unsigned', 'signed'])
     top = t.nodes[t.lookup('Manifest')]
     text = top['data'].decode('utf8')
     if orig == 'signed':
@@ -72,6 +73,21 @@ def gen_sign_case(r):
     c.meta['sign'] = [sign, keyid, vpgp]
     force = 1 if r.random() < 0.7 else 0
     c.ops = [['update', '', [], []], ['save', [], force, [], [], []], ['files'], ['loaded'], ['reload'], ['verify', '', 1, []]]
+    if single:
+        # a listed path whose entry lives in the top-level Manifest is refreshed with the hash set it already carries: its Manifest is
+        # queued although no entry changes; the save is not forced - the signing decision holds all the same
+        cand = []
+        for ln in text.split('\n'):
+            f = ln.split()
+            if len(f) >= 5 and f[0] == 'DATA' and len(f) % 2 == 1 and '\\' not in f[1] and f[1] in files and all(h in GT.GOOD_HASHES for h in f[3::2]):
+                cand.append((f[1], sorted(f[3::2])))
+        if cand:
+            fp, hs = r.choice(cand)
+            sign = r.choice([True, True, None])
+            c.opts = (hs, False, None, None, 'default', sign, keyid, vpgp)
+            c.meta['sign'] = [sign, keyid, vpgp]
+            c.ops = [['update_path', fp, 'DATA', [hs]], ['save', [], 0, [], [], []], ['files'], ['loaded'], ['reload'], ['verify', '', 1, []]]
+            c.meta['single_path'] = fp
     c.hash_names = set(GT.GOOD_HASHES)
     t.hardlinks = True
     # the same run with signing switched off: its top-level Manifest is the text that has to be signed
